@@ -234,6 +234,13 @@ class TaskScenario(ScenarioData):
         These are tasks T where T's dependencies include this task.
         """
         successors = []
+        # A dependency on a container is a dependency on everything inside it: the container
+        # ends when its last leaf does
+        mine: list[Any] = [self.property]
+        node = self.property.parent
+        while node is not None:
+            mine.append(node)
+            node = node.parent
         for task in self.project.tasks:
             if not task.leaf():
                 continue
@@ -254,6 +261,18 @@ class TaskScenario(ScenarioData):
                 if pred is self.property:
                     successors.append(task)
                     break
+                if any(pred is m for m in mine[1:]):
+                    # ... unless the dependent task sits inside that container itself
+                    inside = False
+                    up = task.parent
+                    while up is not None:
+                        if up is pred:
+                            inside = True
+                            break
+                        up = up.parent
+                    if not inside:
+                        successors.append(task)
+                        break
 
         return successors
 
@@ -616,8 +635,16 @@ class TaskScenario(ScenarioData):
                                 if succ_scenario is not None
                                 else successor.get("depends", self.scenarioIdx) or []
                             )
+                            enclosing: list[Any] = []
+                            up = self.property.parent
+                            while up is not None:
+                                enclosing.append(up)
+                                up = up.parent
                             for sdep in succ_deps:
-                                if isinstance(sdep, dict) and sdep.get("task") is self.property:
+                                # (an edge to a container around this task counts like an edge to it)
+                                if isinstance(sdep, dict) and (
+                                    sdep.get("task") is self.property or any(sdep.get("task") is c for c in enclosing)
+                                ):
                                     if sdep.get("gapduration") and not sdep.get("onstart"):
                                         gap_hours = max(gap_hours, self._parse_duration(sdep.get("gapduration"), calendar=True))
                             if gap_hours:
